@@ -162,6 +162,7 @@ func (e *Engine) solveAll(outDir string, results []*FuncResult, timeoutS int, al
 // solveCover: a vacuity check. unsat from any solver means vacuous; sat/unknown/timeout are fine.
 func solveCover(file string) *SolveResult {
 	res := &SolveResult{File: file, Status: "unknown"}
+	nerr := 0
 	for _, s := range solvers[:2] {
 		st, out, el := runSolver(s, file, 3)
 		res.Seconds += el
@@ -171,12 +172,13 @@ func solveCover(file string) *SolveResult {
 			return res
 		}
 		if st == "error" {
-			res.Status, res.Output = "error", out
+			nerr++
+			res.Output = out
 		}
 	}
-	if res.Status == "error" {
-		// an error from one solver with no verdict from the other: report it
-		return res
+	if nerr == 2 {
+		// both solvers reject the query: report it (one rejecting and the other undecided is "unknown")
+		res.Status = "error"
 	}
 	return res
 }
